@@ -1,6 +1,6 @@
 (* C18 -- discovery tables hold exactly what the sources say, and stay
    consistent.  Theorems only. *)
-From NX Require Import Bytes Discovery Mdns DiscoveryFacts LeaseFacts SortedFacts MdnsFacts.
+From NX Require Import Bytes Discovery Mdns DiscoveryFacts LeaseFacts SortedFacts MdnsFacts Refresh RefreshFacts.
 Open Scope Z_scope.
 
 Section C18_hosts.
@@ -132,3 +132,26 @@ Theorem C18_mdns_views_bool : forall cap ops,
   views_agree (fold_left (fun s p => announce cap s (fst p) (snd p)) ops mdns0) = true.
 Proof. exact views_agree_always. Qed.
 Print Assumptions C18_mdns_views_bool.
+
+(* ---- over time: the lazily refreshed file tables (hosts, leases) catch up with the file ---- *)
+(* For any table type and parser.  s: any state of the table object; evs1: the lookups made up to time tc,
+   whatever was on disk then; from then on the file on disk is f (pre, e, post see f); e is a lookup made at
+   least one refresh interval (5 s) after tc.  Then after e, and after every later lookup, the table is the one
+   parsed from f and f's stamp is the remembered one.  `honest`: should f carry exactly the modification time
+   and size the object remembers, the table already is f's (the code compares nothing else). *)
+Theorem C18_table_catches_up : forall (T : Type) (parse : bytes -> T) s evs1 tc f pre e post,
+  r_expires s <= tc + refresh_interval -> (forall e1, In e1 evs1 -> fst e1 <= tc) ->
+  honest T parse (run T parse s evs1) f ->
+  (forall e2, In e2 (pre ++ e :: post) -> snd e2 = Some f) ->
+  tc + refresh_interval <= fst e ->
+  in_sync T parse (run T parse s (evs1 ++ pre ++ [e])) f /\ in_sync T parse (run T parse s (evs1 ++ pre ++ e :: post)) f.
+Proof. exact table_catches_up. Qed.
+Print Assumptions C18_table_catches_up.
+
+(* the limit of that mechanism, stated rather than hidden: a change that keeps modification time and size
+   is never picked up *)
+Theorem C18_same_stamp_never_reloaded : forall (T : Type) (parse : bytes -> T) s f g evs,
+  in_sync T parse s f -> s_stat g = s_stat f -> (forall e, In e evs -> snd e = Some g) ->
+  r_tbl (run T parse s evs) = parse (s_content f).
+Proof. exact same_stat_never_reloaded. Qed.
+Print Assumptions C18_same_stamp_never_reloaded.
